@@ -317,7 +317,7 @@ func Run(tier string) int {
 	res.Sample(map[string]any{"history": "liquidate>convertERC20, export after 1 empty block, import, export"})
 	return engine.Finish(res, engine.Meta{
 		Property: Prop, Tier: tier, Level: "model_checking", Start: start,
-		Rule: "histories: idle chain, every template (base + governance flows) alone with export after settling and with export right after the carrying block, a quarter (thorough: all) of ordered pairs plus curated pairs whose second step consumes what the first created, thorough: one chain of all templates; after each: export A -> InitChain+Commit on a fresh node B -> export B; the two JSON documents are diffed leaf by leaf, the 27-query battery is compared, ValidateGenesis on the export and all crisis invariants on B; transitions = export/import cycles",
+		Rule: "histories: idle chain, every template (base + governance flows) alone with export after settling and with export right after the carrying block, a quarter (thorough: all) of ordered pairs plus curated pairs whose second step consumes what the first created, thorough: one chain of all templates; life-cycle chains with an export after every (quick: every second) block; every history imported twice - with the last block's time and with the original genesis time (what an exported genesis file carries); after each: export A -> InitChain+Commit on a fresh node B -> export B; the two JSON documents are diffed leaf by leaf, the 27-query battery plus by-key queries for every object of the exporting node is compared, ValidateGenesis on the export and all crisis invariants on B; transitions = export/import cycles",
 		Assumptions: []string{
 			"a history that empties the validator set (halted chain) is skipped and counted under outcomes",
 			"ibc 09-localhost latest_height is by definition the height of the exporting context and is not compared for equality",
